@@ -13,10 +13,14 @@
 //    (PEEK_ALLOWED_ON_NON_EMPTY, the `expect` in select_by_scalar).
 //  * ExecutionError / CatchableError: the variants used here; `JValue::as_array`, `JArray::len`, `From<usize> for JValue`
 //    (uninterpreted `jvalue_of_usize`) for the `.length` functor.
+//  * canon-map part (second sentence of C24): CanonStreamMap / CanonStream opaque (`index` = HashMap::get by the derived
+//    Eq/Hash of StreamMapKey = `key_view`), NonEmpty, `select_by_path_from_canon_map_stream` and
+//    `update_tetraplet_with_path` stubs without contracts, `<i64 as From<u32>>::from` (lossless widening).
 // Rewrites (all local): the closure of try_number_to_u32 gets its annotated form (R11); the closure inside the
 //    lifted `lambda_to_execution_error!` is annotated (`ensures is_lambda_error(o)`) and wrapped in `verus_exec_expr!`
 //    so that Verus syntax is legal inside a macro body; in select_by_path_from_scalar the loop iterator is named
-//    (`in it: lambda`) and the `impl Iterator` parameter is instantiated at the call sites' `core::slice::Iter`.
+//    (`in it: lambda`) and the `impl Iterator` parameter is instantiated at the call sites' `core::slice::Iter`;
+//    in select_by_path_from_canon_map `JsonString::from(*field_name).to_owned()` -> `json_string_from_str(*field_name)`.
 use vstd::prelude::*;
 use vstd::std_specs::iter::IteratorSpec;
 verus! {
@@ -495,9 +499,6 @@ impl<T> vstd::std_specs::convert::TryFromSpecImpl<Vec<T>> for NonEmpty<T> {
     open spec fn obeys_try_from_spec() -> bool { true }
     open spec fn try_from_spec(xs: Vec<T>) -> Result<Self, EmptyError> { if xs@.len() == 0 { Err(EmptyError) } else { Ok(NonEmpty(xs)) } }
 }
-// `impl<T: Clone> ToOwned for T { fn to_owned(&self) -> T { self.clone() } }`
-pub assume_specification<T: Clone> [<T as std::borrow::ToOwned>::to_owned] (t: &T) -> (r: T)
-    ensures call_ensures(T::clone, (t,), r);
 pub assume_specification<T: Clone> [<[T]>::to_vec] (s: &[T]) -> (r: Vec<T>) ensures r@.len() == s@.len();
 pub enum LambdaAST<'input> { Functor(Functor), ValuePath(NonEmpty<ValueAccessor<'input>>) }
 pub struct MapLensResult { pub result: JValue, pub tetraplet: RcSecurityTetraplet }
@@ -517,7 +518,8 @@ fn select_by_path_from_canon_map_stream<'value, I: Iterator<Item = (JValue, RcSe
     stream: I, lambda: &NonEmpty<ValueAccessor<'_>>, exec_ctx: &ExecutionCtx<'_>,
 ) -> (r: ExecutionResult<MapLensResult>)
 { unimplemented!() }
-// JsonString::from(&str)  (Rc<str>: From<&str> -- cannot be given an assume_specification, see above)
+// `JsonString::from(s).to_owned()`: an Rc<str> with the text of s (neither `Rc<str>: From<&str>` nor the blanket
+// `ToOwned::to_owned` on Rc<str> can be given a usable spec, see above)
 #[verifier::external_body]
 pub fn json_string_from_str(s: &str) -> (r: JsonString) ensures r@ == s@ { unimplemented!() }
 
@@ -540,7 +542,7 @@ pub open spec fn accessor_key(scalars: &Scalars, acc: &ValueAccessor<'_>) -> Opt
 //@ lift air/src/execution_step/lambda_applier/applier.rs :: fn select_by_path_from_canon_map
 //@ props C24
 //@ ret r
-//@ rewrite 1 "JsonString::from(*field_name)" => "json_string_from_str(*field_name)"
+//@ rewrite 1 "JsonString::from(*field_name).to_owned()" => "json_string_from_str(*field_name)"
 //@ spec
     requires lambda.wf(), !(lambda.0@[0] is Error)
     ensures
